@@ -27,6 +27,18 @@ BUDGET = {"quick": 600, "thorough": 1500}
 MG, SMG, CRG, SCRG = RG.MG, RG.SMG, RG.CRG, RG.SCRG
 
 
+def diene_specs():
+    """0=1-2=3 with two planar bond descriptors (and the same as static descriptor + stereo change in a reaction graph)"""
+    atoms = [(0, "C"), (1, "C"), (2, "C"), (3, "C"), (4, "F"), (5, "H"), (6, "Cl"), (7, "Br"), (8, "H"), (9, "I")]
+    bonds = [(0, 1), (1, 2), (2, 3), (0, 4), (0, 5), (1, 6), (2, 7), (3, 8), (3, 9)]
+    d1 = ("PlanarBond", (4, 5, 0, 1, 6, 2), 0)
+    d2 = ("PlanarBond", (1, 7, 2, 3, 8, 9), 0)
+    d2x = ("PlanarBond", (1, 7, 2, 3, 9, 8), 0)
+    return [U.mk(SMG, atoms, bonds, bstereo=[d1, d2]), U.mk(SMG, atoms, bonds, bstereo=[d2, d1]),
+            U.mk(SCRG, atoms, bonds, bstereo=[d1], bchg={(2, 3): {"BROKEN": d2, "FORMED": d2x}}),
+            U.mk(SCRG, atoms, bonds, bchg={(0, 1): {"FLEETING": d1}, (2, 3): {"BROKEN": d2, "FORMED": d2x}})]
+
+
 @lru_cache(None)
 def specs(tier):
     S = []
@@ -38,6 +50,10 @@ def specs(tier):
     S += [g for g in U.stars(5) if len(g.atoms) == 6][::(4 if tier == "quick" else 1)]
     S += [g for g in U.two_unit() if len(g.atoms) <= 6]
     S += [g for g in U.scrg_universe("quick") if g.atoms][::(2 if tier == "quick" else 1)]
+    # several stereo centres / several stereo bonds in one graph: a mapping may send one centre to the old label of another
+    S += [g for g in U.two_unit() if len(g.atoms) == 8][::(3 if tier == "quick" else 1)]
+    S += [g for g in U.two_unit() if len(g.atoms) == 12][::(2 if tier == "quick" else 1)]
+    S += diene_specs()
     # a 7-coordinate centre without descriptor, graphs of 133 atoms (reduced mapping family for these)
     S += [g for g in U.hubs("quick") if g.kind in (SMG, SCRG)][:2] + [g for g in U.large("quick")]
     out = []
@@ -72,6 +88,11 @@ def mappings(m, tier):
     # shifted out of the way)
     cm = {a: (COLLIDING[i] if i < len(COLLIDING) else a + 10 ** 6) for i, a in enumerate(ids)}
     out.append(("total-colliding", cm))
+    if n >= 4:
+        a, b, c, d = ids[:4]
+        out.append(("double-swap", {a: c, c: a, b: d, d: b}))       # exchanges two centres / two bonds together with a neighbour each
+        out.append(("cycle-4", {a: b, b: c, c: d, d: a}))
+        out.append(("chain-2", {a: b, b: max(ids) + 50}))           # a takes b's old label, b moves to a fresh one
     if big:
         for S in (ids[:1], ids[::2], ids[1:]):
             out.append(("partial-fresh", {a: 10 ** 5 + i for i, a in enumerate(S)}))
